@@ -38,12 +38,12 @@ pub fn run(ctx: &Ctx) -> Report {
     }
     let sub = Sub::new(
         "round-trip",
-        "every inhabitant of every type of the family (all 8 integer widths at their boundaries, f32/f64 incl. specials, bool, char, strings, byte buffers, unit, nested options, sequences and sets of length 0/1/2/3/long, tuples, arrays, maps with integer/char/string/enum keys, unit/newtype/tuple/empty structs, an enum with unit, newtype(Vec/Option/()/tuple/Box<enum>), tuple(0/1/2) and struct(0/1/2) variants, nested one and two levels, enums in maps in structs): from_value(to_value(x)) == x, and the same through to_string/from_str, to_vec/from_slice, to_writer/from_reader; distinct inhabitants must have distinct encodings; non-trivial = every case",
-        &format!("{} types, {} (type, value) pairs, 4 paths each", fam.len(), cases.len()),
+        "every inhabitant of every type of the family (all 8 integer widths at their boundaries, f32/f64 incl. specials, bool, char, strings, byte buffers, unit, nested options, sequences and sets of length 0/1/2/3/long, tuples, arrays, maps with integer/char/string/enum keys, unit/newtype/tuple/empty structs, an enum with unit, newtype(Vec/Option/()/tuple/Box<enum>), tuple(0/1/2) and struct(0/1/2) variants, nested one and two levels, enums in maps in structs): from_value(to_value(x)) == x, and the same through to_string/from_str, to_vec/from_slice, to_writer/from_reader and the three _custom pairs given the default option sets; distinct inhabitants must have distinct encodings; non-trivial = every case",
+        &format!("{} types, {} (type, value) pairs, 7 paths each", fam.len(), cases.len()),
     );
     let accs = par_ranks(cases.len() as u64, |rank, acc| {
         let (t, i) = cases[rank as usize];
-        acc.evals += 4;
+        acc.evals += 7;
         acc.nontrivial += 1;
         acc.outcome(&t);
         acc.sample(rank, || format!("{}: {}", fam[t].name(), fam[t].describe(&b, i)));
